@@ -336,4 +336,91 @@ Section Repl.
     | None => None
     | Some v => Some (flat_map (fun kd => if 1 <=? snd (fst kd) then slot_rows v (fst kd) (snd kd) else []) (b_slots v))
     end.
+
+  (** * "The replica has converged to the master": same buckets with the same record type and columns, and
+      every bucket's full-range query returns the same number of rows with the same column bytes; FIXED
+      rows at the same time, VARIABLE rows within twice the bucket's resolution (one tick = interval / 2^32,
+      rounded up to whole nanoseconds) *)
+  Definition step_ns (tf : Z) : Z := (tf + 4294967295) / 4294967296.
+  Fixpoint all2 {A B} (f : A -> B -> bool) (a : list A) (b : list B) : bool :=
+    match a, b with
+    | [], [] => true
+    | x :: a', y :: b' => f x y && all2 f a' b'
+    | _, _ => false
+    end.
+  Definition close_rows (tol : Z) (a b : list qrow) : bool :=
+    all2 (fun x y => (Z.abs (q_time x - q_time y) <=? tol) && bytes_eqb (q_data x) (q_data y)) a b.
+
+  Definition convergedb (sm sr : store) : bool :=
+    (length sm =? length sr)%nat &&
+    forallb (fun bv =>
+               match find_bucket sr (fst bv) with
+               | None => false
+               | Some v' =>
+                   let v := snd bv in
+                   (b_rt v =? b_rt v') && shapes_eqb (b_shapes v) (b_shapes v') &&
+                   match query sm (fst bv), query sr (fst bv) with
+                   | Some l, Some l' => close_rows (if b_rt v =? RT_FIXED then 0 else 2 * step_ns (b_tf v)) l l'
+                   | _, _ => false
+                   end
+               end) sm.
+
+  (** * Boolean guards of the guarded theorems (evaluated on every harness case) *)
+  Definition tf_okb (tf : Z) : bool :=
+    (0 <? tf) && (tf <? utils_Day) && (utils_Day mod tf =? 0) && (tf mod NS =? 0).
+
+  (** (year, index) name a slot: the interval start maps back to them *)
+  Definition idx_okb (w : ws) : bool :=
+    let t0 := IndexToTime z (ws_idx w) (ws_tf w) (ws_year w) in
+    match TimeToIndex z t0 (ws_tf w) with
+    | Ok i => (i =? ws_idx w) && (year_of z t0 =? ws_year w)
+    | _ => false
+    end.
+
+  Definition bucket_fitsb (st : store) (w : ws) : bool :=
+    match find_bucket st (ws_bucket w) with
+    | None => true
+    | Some v => (b_rt v =? ws_rt w) && (b_tf v =? ws_tf w) && shapes_eqb (b_shapes v) (ws_shapes w)
+    end.
+
+  Definition fixed_okb (st : store) (w : ws) : bool :=
+    (ws_rt w =? RT_FIXED) && tf_okb (ws_tf w) && negb (has_name nanos_name (ws_shapes w))
+    && (Z.of_nat (length (ws_payload w)) =? rowsize (ws_shapes w) - 8)
+    && idx_okb w && bucket_fitsb st w.
+
+  Definition nanos_okb (w : ws) : bool :=
+    let epoch := sec_of (IndexToTime z (ws_idx w) (ws_tf w) (ws_year w)) in
+    forallb (fun rec => let n := wrap I32 (snd (time_from_ticks epoch (ipd_of (ws_tf w)) (rec_ticks rec))) in
+                        (0 <=? n) && (n <? ws_tf w))
+            (chunks (length (ws_payload w)) (Z.to_nat (ws_vrl w)) (ws_payload w)).
+
+  Definition var_okb (st : store) (w : ws) : bool :=
+    (ws_rt w =? RT_VARIABLE) && tf_okb (ws_tf w) && negb (has_name nanos_name (ws_shapes w))
+    && (ws_vrl w =? rowsize (ws_shapes w) - 8 + 4) && (4 <=? ws_vrl w)
+    && (Z.of_nat (length (ws_payload w)) mod ws_vrl w =? 0) && (ws_vrl w <=? Z.of_nat (length (ws_payload w)))
+    && idx_okb w && nanos_okb w && bucket_fitsb st w.
+
+  (** what the replica makes of one VARIABLE record: the columns, and ticks recomputed from
+      interval start + nanosecond part (the seconds GetTimeFromTicks returns are dropped) *)
+  Definition retick_rec (epoch ipd idx ipd_b : Z) (rec : list byte) : list byte :=
+    let ns := wrap I32 (snd (time_from_ticks epoch ipd (rec_ticks rec))) in
+    firstn (length rec - 4) rec ++ le_bytes 4 (get_ticks (epoch * NS + ns) idx ipd_b).
+
+  Definition retick_ws (w : ws) : ws :=
+    let epoch := sec_of (IndexToTime tz_utc (ws_idx w) (ws_tf w) (ws_year w)) in
+    mkws (ws_rt w) (ws_bucket w) (ws_tf w) (ws_year w) (ws_idx w)
+         (concat (map (retick_rec epoch (ipd_of (ws_tf w)) (ws_idx w) (utils_Day / ws_tf w))
+                      (chunks (length (ws_payload w)) (Z.to_nat (ws_vrl w)) (ws_payload w))))
+         (ws_vrl w) (ws_shapes w).
+
+  Definition retick (w : ws) : ws := if ws_rt w =? RT_VARIABLE then retick_ws w else w.
+
+  Fixpoint tg_fixed_okb (st : store) (tg : list ws) : bool :=
+    match tg with [] => true | w :: r => fixed_okb st w && tg_fixed_okb (master_ws st w) r end.
+  Fixpoint tg_var_okb (st : store) (tg : list ws) : bool :=
+    match tg with [] => true | w :: r => var_okb st w && tg_var_okb (master_ws st (retick_ws w)) r end.
+  (** a homogeneous, well-formed transaction group *)
+  Definition tg_okb (st : store) (tg : list ws) : bool := tg_fixed_okb st tg || tg_var_okb st tg.
+  Fixpoint run_okb (st : store) (tgs : list (list ws)) : bool :=
+    match tgs with [] => true | tg :: r => tg_okb st tg && run_okb (master_tg st (map retick tg)) r end.
 End Repl.
